@@ -888,8 +888,24 @@ def l3_edges(chk, ctx):
         chk.fail('from_demes:raises:' + type(e).__name__, 'Spectrum.from_demes raises %r' % (e,), dict(kind='from_demes'))
 
 # ------------------------------------------------------------------------------------------------- entry points
+def guard_generated(when):
+    """the driver must have been built from the translation of THIS tree: another check running at the same time with a different
+    DADI_REPO rewrites lean/DadiVerif/Generated/*.lean under us -> infrastructure failure, never a verdict"""
+    import translate
+    for name in GENERATED:
+        path = os.path.join(translate.GEN_DIR, name + '.lean')
+        try:
+            want = translate.GENERATORS[name]()
+        except Exception:
+            continue                    # a translation error is reported through chk.translate
+        have = open(path).read() if os.path.exists(path) else ''
+        if have != want and 'translateFailed_' not in have:
+            raise common.Infra('Generated/%s.lean is not the translation of %s (%s): rewritten by a concurrent check of another tree?' % (name, common.REPO, when))
+
 def run(chk, ctx):
     rng = common.Rng(ctx['seed'], 'C16')
+    if not any(e is not None for e in chk.translate.values()):
+        guard_generated('before the correspondence')
     quick = ctx['tier'] != 'thorough'
     REFINE_BUDGET[0] = 20.0 if quick else 120.0
     DEADLINE[0] = time.time() + (110.0 if quick else 1300.0)
@@ -916,6 +932,8 @@ def run(chk, ctx):
         timed('K wiring', k_wiring, chk, ctx, R('k-wiring'))
         timed('K events', k_events, chk, ctx, R('k-events'))
         timed('K export', k_export, chk, ctx, R('k-export'), 6 if quick else 40)
+    if not any(e is not None for e in chk.translate.values()):
+        guard_generated('after the correspondence')
     timed('L3 edges', l3_edges, chk, ctx)
     timed('L3 graph', l3_graph_vs_program, chk, ctx, R('graph'), 40 if quick else 500, False, 1.0 if quick else 4.0)
     timed('L3 ancient', l3_graph_vs_program, chk, ctx, R('ancient'), 14 if quick else 200, True, 1.0 if quick else 4.0)
